@@ -36,7 +36,7 @@ RULE = ("Twin runs. Stream S and S' = S with the VALUES (prices, payloads, table
         "event before the end of the episode.")
 ASSUMPTIONS = ["value perturbations only: adding/removing future timestamps legitimately changes `done`"]
 REQUIRED = ["C02:no-lookahead", "C02:next-trades-independent-of-future", "C02:xy-no-lookahead"]
-REQUIRED_CATS = ["transmitter-used-before-with-larger-latency", "xy-prefitted-transformer", "custom-events-from-table", "xy-sparse-features", "generic", "xy", "xy-nan-straddles-cut", "xy-row-missing-at-cut", "cut:first", "cut:last", "latency>0", "late-fold", "markov", "warmup"]
+REQUIRED_CATS = ["xy-rate-off-price-dates", "transmitter-used-before-with-larger-latency", "xy-prefitted-transformer", "custom-events-from-table", "xy-sparse-features", "generic", "xy", "xy-nan-straddles-cut", "xy-row-missing-at-cut", "cut:first", "cut:last", "latency>0", "late-fold", "markov", "warmup"]
 TECHNIQUE = "runtime monitoring: twin executions on streams that agree up to the cut, compared call by call on canonical digests"
 LEVEL_TEXT = ("Exploration by twin runs: the same real environment is executed on two inputs that agree on everything stamped <= t; any "
               "difference in an output landing at or before t is a witness of look-ahead. Fixed actions prevent a leak from hiding "
@@ -243,6 +243,11 @@ def xy(ctx):
         X = X.drop(X.index[kcut])
         ctx.cat("xy-row-missing-at-cut")
     rate = pd.Series(rng.uniform(-0.01, 0.03, n), dates, name="r")
+    if r.random() < 0.4:
+        # fixings on their own (sparser) cadence, mostly NOT on price dates: weekly / every 3rd / 10th calendar day
+        dR = pd.date_range(dates[0] - pd.Timedelta(days=2), dates[-1], freq=r.choice(["W-SAT", "3D", "10D"]))
+        rate = pd.Series(rng.uniform(-0.01, 0.03, len(dR)), dR, name="r")
+        ctx.cat("xy-rate-off-price-dates")
     sd = r.choice([0, 1])
     acts = [np.array([0.3, -0.2]), np.array([0., 0.5]), np.array([-0.4, 0.1])]
 
@@ -278,7 +283,7 @@ def xy(ctx):
     after = X2.index > tcut
     X2.loc[after] = X2.loc[after] * rng.uniform(0.2, 3) + rng.normal(0, 1)
     Y2.loc[Y2.index > tcut] = Y2.loc[Y2.index > tcut] * rng.uniform(0.5, 2)
-    rate2.loc[rate2.index > tcut] = rate2.loc[rate2.index > tcut] * 0.5
+    rate2.loc[rate2.index > tcut] = rate2.loc[rate2.index > tcut] * 0.5 + 0.02
     # NaN pattern after the cut (not on the last two rows)
     idx_after = [j for j in range(kcut + 1, n - 2)]
     for _ in range(r.randint(0, 3)):
